@@ -255,7 +255,8 @@ func replayNative(id string, spec *ReplaySpec, v *Violation, repo string) {
 	rs := spec
 	if isRace {
 		c := *spec
-		c.Flags = append(append([]string{}, spec.Flags...), "-race")
+		// the Go race detector reports a race only when it observes both accesses: repeat
+		c.Flags = append(append([]string{}, spec.Flags...), "-race", "-count=40")
 		rs = &c
 	}
 	out, _ := runReplay(repo, rs, ovFile)
